@@ -24,8 +24,10 @@ EXPLANATION = (
     "parameter as index, past a bounds test that admits exactly the valid indices of the list (order table at the "
     "boundaries); R7.4 the three front ends agree: the order of the action's request parameters vs the add_rule "
     "handler's request[i] -> keyword mapping (synonym table), the 'ALL'/'NONE' sentinels, and the seven from-config "
-    "parsers (identical config-key -> keyword maps, mapping key passed as position, list named by the config key). NOT "
-    "decided: the wildcard bit arithmetic of ip_matches_masked_range and IPv4 comparisons (numerical), and "
+    "parsers (identical config-key -> keyword maps, mapping key passed as position, list named by the config key); R7.5 "
+    "the wildcard match ip_matches_masked_range is a bit-parallel expression (only &, |, ^, ~, ==), so its 8-row "
+    "per-bit truth table decides it exactly: match <=> mask bit set or address bit == base bit (a form that is not "
+    "bit-parallel, e.g. with shifts, ends fail-closed in ANALYSIS-ERROR). NOT decided: IPv4Address equality itself and "
     "bounded-exhaustive verdict equivalence against a reference filter."
 )
 TECHNIQUE = "static: CFG structure of the scan loop, finite truth tables of the rule matcher and bounds tests over stand-in values, sibling agreement of the three front ends"
@@ -355,7 +357,57 @@ def r7_4(ctx: Ctx) -> None:
                    "", k in ref, f"{k} <- {ref.get(k)}")
 
 
+def r7_5(ctx: Ctx) -> None:
+    """Wildcard matching decided per bit: the expression must be bit-parallel, then a 1-bit truth table is exact."""
+    ix = ctx.ix
+    ctx.rule("R7.5", "ip_matches_masked_range is a bit-parallel expression whose per-bit table is: match <=> wildcard bit "
+                     "set or (address bit == base bit) - exact for 32-bit words because every operator acts bit by bit")
+    f = ix.module_func("primaite.simulator.network.hardware.nodes.network.router", "ip_matches_masked_range")
+    params = [a.arg for a in f.node.args.args]
+    if len(params) != 3:
+        raise AnalysisError("R7.5: ip_matches_masked_range no longer takes (ip_to_check, base_ip, wildcard_mask)")
+    ld = LocalDefs(f.node)
+    rets = [r for r in ast.walk(f.node) if isinstance(r, ast.Return) and r.value is not None]
+    if len(rets) != 1:
+        raise AnalysisError("R7.5: expected a single return expression")
+
+    # inline the single-assignment locals to obtain one expression over the three parameters
+    import copy
+
+    class Inline(ast.NodeTransformer):
+        def visit_Name(self, node):  # noqa: N802
+            if isinstance(node.ctx, ast.Load) and node.id not in params:
+                d = ld.single(node.id)
+                if d and d[0] is not None and d[1] is None:
+                    return self.visit(copy.deepcopy(d[0]))
+            return node
+
+    expr = Inline().visit(copy.deepcopy(rets[0].value))
+    allowed = (ast.BinOp, ast.BitAnd, ast.BitOr, ast.BitXor, ast.UnaryOp, ast.Invert, ast.Not, ast.Compare, ast.Eq, ast.NotEq,
+               ast.Name, ast.Load, ast.Call, ast.BoolOp, ast.And, ast.Or)
+    # comparing with the constant 0 is bit-parallel too ("all bits zero" = every bit zero)
+    bad_nodes = [type(n).__name__ for n in ast.walk(expr) if not isinstance(n, allowed)
+                 and not (isinstance(n, ast.Constant) and n.value == 0 and type(n.value) is int)]
+    calls = [n for n in ast.walk(expr) if isinstance(n, ast.Call)]
+    if bad_nodes or any(not (isinstance(c.func, ast.Name) and c.func.id == "int" and len(c.args) == 1) for c in calls):
+        raise AnalysisError(f"R7.5: the masked-range test is not bit-parallel (uses {sorted(set(bad_nodes))[:4]}): the per-bit "
+                            "argument does not apply - this clause cannot be decided statically for this form")
+    ip_p, base_p, wild_p = params
+    bad = []
+    for ip_b, base_b, wild_b in itertools.product((0, 1), repeat=3):
+        env = {f"int({ip_p})": ip_b, f"int({base_p})": base_b, f"int({wild_p})": wild_b, ip_p: ip_b, base_p: base_b, wild_p: wild_b}
+        v = Evaluator(env).ev(expr)
+        if v is UNKNOWN:
+            raise AnalysisError("R7.5: cannot evaluate the masked-range expression")
+        want = bool(wild_b) or ip_b == base_b
+        if bool(v) != want:
+            bad.append(f"address bit {ip_b}, base bit {base_b}, wildcard bit {wild_b}: matches={bool(v)}, expected {want}")
+    ctx.record("R7.5", ctx.key(f, "per-bit table of the wildcard match"), f.loc(), not bad,
+               f"`{unparse(expr)[:90]}`: 8-row per-bit table holds" if not bad else "wildcard matching differs from 'ignore the bits set in the mask'", bad)
+
+
 def check(ctx: Ctx) -> None:
+    r7_5(ctx)
     r7_1(ctx)
     r7_2(ctx)
     r7_3(ctx)
